@@ -44,6 +44,7 @@ type World struct {
 	sumMemo       map[sumKey]int
 	defsMemo      map[*FuncInfo]*funcDefs
 	condAtoms     map[string]map[string]bool
+	condSets      map[string][][]string
 	deep          deepState
 	newCallBusy   map[string]bool
 	vanished      []string
